@@ -69,3 +69,23 @@ func VerifSanitizedPath() {
 	vp.Assert(verifSafeComponent(r), "sanitized name is not a safe single path component")
 	vp.Assert(PathOr(s, "fallback") == r, "PathOr disagrees with Path")
 }
+
+// VerifSanitizedPathDeep: long names built from many components (counts around typical limits such as 8,
+// 16, 32, 64), followed by a traversal-style tail and one symbolic byte: the result is still one safe
+// component.
+func VerifSanitizedPathDeep() {
+	counts := []int{0, 1, 2, 7, 8, 9, 15, 16, 17, 31, 32, 33, 63, 64, 65, 127, 128, 129}
+	k := counts[vp.Choice(vp.Bound("K"))]
+	comp := []string{"d/", "../", "./", "d\\"}[vp.Choice(4)]
+	name := ""
+	for i := 0; i < k; i++ {
+		name += comp
+	}
+	name += []string{"x", "../x", "x/../../y", "..", "a/b", "../../etc/passwd"}[vp.Choice(6)]
+	name += vp.String(1)
+	r, err := Path(name)
+	if err != nil {
+		return
+	}
+	vp.Assert(verifSafeComponent(r), "sanitized name is not a safe single path component")
+}
